@@ -223,6 +223,6 @@ Proof. exact rsa_reply_ok_2048. Qed.
 
 (* the size adjustment of the model is the function the translator derives, statement by statement, from the current kexdh.py *)
 From VGen Require Import Tables.
-From VProofs Require Import TieProofs.
+From VProofs Require Import TieC11.
 Theorem c11_tie_adjust_key_size : forall size, adjust_key_size size = src_adjust_key_size size.
 Proof. exact tie_adjust_key_size. Qed.
